@@ -43,6 +43,7 @@ import r50_guessspec
 import r51_geometry
 import r52_weightconst
 import r53_excess
+import r54_continuation
 import r06_validate
 import r07_cache
 import r08_toporder
@@ -119,6 +120,8 @@ R24_SCOPES = {
             "phase_equilibria::phase_envelope"),
     "C06": ("state::critical_point",),
     "C07": ("phase_equilibria::stability_analysis", "phase_equilibria::tp_flash"),
+    "C12": ("phase_equilibria::vle_pure", "phase_equilibria::phase_diagram_pure", "phase_equilibria::tp_flash", "phase_equilibria::bubble_dew",
+            "phase_equilibria::phase_diagram_binary", "phase_equilibria::phase_envelope", "state::critical_point"),
     "C18": ("feos_dft::",),
     "C20": ("estimator::",),
 }
@@ -241,6 +244,10 @@ def r53(ctx, prop):
     return r53_excess.run(ctx.F())
 
 
+def r54(ctx, prop):
+    return r54_continuation.run(ctx.F())
+
+
 def r43(ctx, prop):
     return r43_selfnorm.run(ctx.F())
 
@@ -353,7 +360,7 @@ def r17(ctx, prop):
 
 def r16(ctx, prop):
     rs = r16_frame.run(ctx.F())
-    want = {"C05": ("frame|", "guess|tp_flash"), "C18": ("spec|",), "C04": ("guess|pure",)}.get(prop)
+    want = {"C05": ("frame|", "guess|tp_flash"), "C18": ("spec|",), "C04": ("guess|pure",), "C12": ("guess|",)}.get(prop)
     if want:
         for r in rs:
             r.instances = [i for i in r.instances if i["id"].startswith(want)]
@@ -483,6 +490,7 @@ PROPERTY_RULES = {
     "C02": [r3, r7, r39, r40, r1_sinks, r20b],
     "C10": [r10_selector, r8, r1_idealgas, r3, r19, r25, r29, r10_selconst, r1_guard_idealgas, r44],
     "C14": [r14, r13, r10_identifier, r21, r27, r28, r38, r40, r47, r20b, r49],
+    "C12": [r4, r16, r50, r54, r24],
     "C15": [r15],
     "C16": [r51, r52, r53, r48, r10_selconst],
     "C20": [r10_transport, r21, r25, r24, r34, r10_selconst, r41, r47],
